@@ -2,11 +2,11 @@
 (* C47 component spec: admission of reservations and circuits by relay::Behaviour (protocols/relay/src/behaviour.rs),
    one action per handler event the behaviour reacts to.
      conns  : open connections <<peer, j>>
-     active : connections the behaviour counts as holding a reservation (`Reservation::Active`, set at admission)
+     active : connections the behaviour counts as holding a reservation (Reservation::Active, set at admission)
      held   : connections whose handler really holds a reservation (ReservationReqAccepted .. TimedOut / closed)
      circ   : CircuitsTracker: records [n, s, sc, d, dc, st] with st \in {"accepting", "accepted"}
    Canary switches transcribe the code before the repair (DESIGN 7-14):
-     OffByOne   : per-peer limits compared with `>` instead of `>=`
+     OffByOne   : per-peer limits compared with > instead of >=
      NoDstCheck : the per-peer circuit limit is applied to the source only *)
 EXTENDS Naturals, FiniteSets, TLC
 CONSTANTS Peers, MaxRes, MaxResPerPeer, MaxCirc, MaxCircPerPeer, MaxN, OffByOne, NoDstCheck
